@@ -348,8 +348,8 @@ class BaseMutableRandomLineAccessFile(BaseRandomLineAccessFile, collections.abc.
         """
         if not isinstance(content, str):
             raise ValueError("You can set only string content.")
-        self._dirty = True
         self._lines[i] = content
+        self._dirty = True  # only a successful change makes the file dirty
 
     def __delitem__(self, n: int):
         """
@@ -357,8 +357,8 @@ class BaseMutableRandomLineAccessFile(BaseRandomLineAccessFile, collections.abc.
 
         :param n: index of line
         """
-        self._dirty = True
         del self._lines[n]
+        self._dirty = True  # only a successful change makes the file dirty
 
     def insert(self, index: int, content: str):
         """
